@@ -143,6 +143,10 @@ void inst(rgb8_view_t const& a, rgb8_planar_view_t const& p, k_xystep const& s, 
   fill_pixels(p, bgr8_pixel_t()); fill_pixels(ps, bgr8_pixel_t()); fill_pixels(a, bgr8_pixel_t()); fill_pixels(p, rgb8_pixel_t());
 }
 void inst_f(rgb32f_view_t const& f, rgb32f_planar_view_t const& fp, rgb32f_image_t const& fi){ (void)equal_pixels(f, f); (void)equal_pixels(fp, fp); (void)equal_pixels(f, fp); (void)(fi == fi); }
+// channels that are built-in floating point types (float32_t is a class; `float` and `double` are arithmetic types as well as the integral ones)
+typedef view_type<float, rgb_layout_t>::type rgbf_view_t; typedef view_type<float, rgb_layout_t, true>::type rgbf_planar_view_t; typedef view_type<double, gray_layout_t>::type grayd_view_t;
+void inst_rf(rgbf_view_t const& f, rgbf_planar_view_t const& fp, grayd_view_t const& d, image<pixel<float, rgb_layout_t>> const& fi){
+  (void)equal_pixels(f, f); (void)equal_pixels(fp, fp); (void)equal_pixels(f, fp); (void)equal_pixels(d, d); (void)(fi == fi); }
 '''
 
 
